@@ -601,6 +601,16 @@ def _process_internal_events_without_default_matchers(
                 if "flow_instance_uid" not in event.arguments:
                     event.arguments["flow_instance_uid"] = new_readable_uuid(flow_id)
 
+                if event.arguments["flow_instance_uid"] in state.flow_states:
+                    # An instance uid identifies one flow instance: a second start with a uid
+                    # that is in use would replace that instance behind the back of the indexes
+                    log.warning(
+                        "Did not start flow '%s': the instance uid '%s' is already in use!",
+                        flow_id,
+                        event.arguments["flow_instance_uid"],
+                    )
+                    return handled_event_loops
+
                 add_new_flow_instance(
                     state,
                     create_flow_instance(
